@@ -19,8 +19,8 @@ Proved, for ALL inputs:
   EQUAL, is an explicit outcome with a witness (`C12_deepEqual_overflow_witness`);
 * `Model/NativeDec.lean` — the native contracts' decoders that loop over an announced count are total and run at most
   `len(input)` iterations (`C12_count_loop_bounded`, `C12_decode_total_*`);
-* the list of explicit `panic(` calls and of count-sized loops / allocations extracted from the Go sources on every run equals the
-  reviewed list (`C12_panic_sites_reviewed`, `C12_count_sites_reviewed`).
+* the set of KINDS of explicit `panic(` calls and of loops / allocations / index operations driven by a decoded count, extracted from
+  the Go sources on every run, is included in the reviewed set (`C12_panic_sites_reviewed`, `C12_count_sites_reviewed`).
 -/
 namespace OntVerif.Props.C12
 open OntVerif.Util OntVerif.Model.NeoVal OntVerif.Model.NeoExec OntVerif.Proofs.NeoExec
@@ -315,143 +315,68 @@ example : (match dTransferStates false [0x09, 0xff, 0xff, 0xff, 0xff, 0xff, 0xff
 example : (match dTransferStates false ([0x01, 0x01] ++ [0x14] ++ List.replicate 20 1 ++ [0x14] ++ List.replicate 20 2 ++ [0x01, 0x05]) with
     | .ok l _ => l.map (·.value) | _ => []) = [5] := by decide
 
-/-! ## (d) explicit `panic(` calls and count-sized loops: the reviewed lists -/
+/-! ## (d) explicit `panic(` calls and operations on decoded counts: the reviewed KINDS
 
-/-- the reviewed list of explicit `panic(` calls; the disposition of every entry is in `props/C12.json` -/
-def reviewedPanicSites : List String := [
-  "core/states/native_token_balance.go:NativeTokenBalance.MustToInteger64#0: panic('too large…",
-  "smartcontract/service/evm/state_transition.go:IntrinsicGas#0: panic(ErrGasUintOverflow)",
-  "smartcontract/service/evm/state_transition.go:IntrinsicGas#1: panic(ErrGasUintOverflow)",
-  "smartcontract/service/native/cross_chain/common/header.go:Header.serializationUnsigned#0: …",
-  "smartcontract/service/native/governance/method.go:executeSplit2#0: panic('balance less tha…",
-  "smartcontract/service/native/governance/method.go:executeSplit2#1: panic('income less than…",
-  "smartcontract/service/native/ontid/group.go:parse#0: panic('invalid member type')",
-  "smartcontract/service/native/ontid/group.go:validateMembers#0: panic('group member type er…",
-  "smartcontract/service/native/ontid/group.go:verifyThreshold#0: panic('invalid group member…",
-  "smartcontract/service/native/testsuite/ont_suite.go:executeTransaction#0: panic('unimpleme…",
-  "smartcontract/service/wasmvm/block.go:GetCurrentBlockHash#0: panic(err)",
-  "smartcontract/service/wasmvm/contract.go:ContractCreate#0: panic(err)",
-  "smartcontract/service/wasmvm/contract.go:ContractCreate#1: panic(err)",
-  "smartcontract/service/wasmvm/contract.go:ContractCreate#2: panic(err)",
-  "smartcontract/service/wasmvm/contract.go:ContractCreate#3: panic(err)",
-  "smartcontract/service/wasmvm/contract.go:ContractCreate#4: panic(err)",
-  "smartcontract/service/wasmvm/contract.go:ContractCreate#5: panic(err)",
-  "smartcontract/service/wasmvm/contract.go:ContractCreate#6: panic(err)",
-  "smartcontract/service/wasmvm/contract.go:ContractCreate#7: panic(err)",
-  "smartcontract/service/wasmvm/contract.go:ContractCreate#8: panic(err)",
-  "smartcontract/service/wasmvm/contract.go:ContractMigrate#0: panic(err)",
-  "smartcontract/service/wasmvm/contract.go:ContractMigrate#1: panic(err)",
-  "smartcontract/service/wasmvm/contract.go:ContractMigrate#2: panic(err)",
-  "smartcontract/service/wasmvm/contract.go:ContractMigrate#3: panic(err)",
-  "smartcontract/service/wasmvm/contract.go:ContractMigrate#4: panic(err)",
-  "smartcontract/service/wasmvm/contract.go:ContractMigrate#5: panic(err)",
-  "smartcontract/service/wasmvm/contract.go:ContractMigrate#6: panic(err)",
-  "smartcontract/service/wasmvm/contract.go:ContractMigrate#7: panic(err)",
-  "smartcontract/service/wasmvm/contract.go:ContractMigrate#8: panic(err)",
-  "smartcontract/service/wasmvm/contract.go:ContractDestroy#0: panic(err)",
-  "smartcontract/service/wasmvm/runtime.go:SelfAddress#0: panic(err)",
-  "smartcontract/service/wasmvm/runtime.go:Sha256#0: panic(err)",
-  "smartcontract/service/wasmvm/runtime.go:Sha256#1: panic(err)",
-  "smartcontract/service/wasmvm/runtime.go:CallerAddress#0: panic(err)",
-  "smartcontract/service/wasmvm/runtime.go:CallerAddress#1: panic(err)",
-  "smartcontract/service/wasmvm/runtime.go:EntryAddress#0: panic(err)",
-  "smartcontract/service/wasmvm/runtime.go:Checkwitness#0: panic(err)",
-  "smartcontract/service/wasmvm/runtime.go:Checkwitness#1: panic(err)",
-  "smartcontract/service/wasmvm/runtime.go:Ret#0: panic(err)",
-  "smartcontract/service/wasmvm/runtime.go:Notify#0: panic(err)",
-  "smartcontract/service/wasmvm/runtime.go:Notify#1: panic(err)",
-  "smartcontract/service/wasmvm/runtime.go:GetInput#0: panic(err)",
-  "smartcontract/service/wasmvm/runtime.go:GetCallOut#0: panic(err)",
-  "smartcontract/service/wasmvm/runtime.go:GetCurrentTxHash#0: panic(err)",
-  "smartcontract/service/wasmvm/runtime.go:RaiseException#0: panic(fmt.Errorf('[RaiseExceptio…",
-  "smartcontract/service/wasmvm/runtime.go:CallContract#0: panic(err)",
-  "smartcontract/service/wasmvm/runtime.go:CallContract#1: panic(err)",
-  "smartcontract/service/wasmvm/runtime.go:CallContract#2: panic(err)",
-  "smartcontract/service/wasmvm/runtime.go:Runtime.checkGas#0: panic(err)",
-  "smartcontract/service/wasmvm/storage.go:StorageRead#0: panic(err)",
-  "smartcontract/service/wasmvm/storage.go:StorageRead#1: panic(err)",
-  "smartcontract/service/wasmvm/storage.go:StorageRead#2: panic(err)",
-  "smartcontract/service/wasmvm/storage.go:StorageWrite#0: panic(err)",
-  "smartcontract/service/wasmvm/storage.go:StorageWrite#1: panic(err)",
-  "smartcontract/service/wasmvm/storage.go:StorageDelete#0: panic(err)",
-  "smartcontract/storage/statedb.go:StateDB.SubRefund#0: panic(fmt.Sprintf('Refund counter be…",
-  "smartcontract/storage/statedb.go:StateDB.ForEachStorage#0: panic('todo')",
-  "smartcontract/storage/statedb.go:StateDB.DiscardSnapshot#0: panic('can not to revert snaps…",
-  "smartcontract/storage/statedb.go:StateDB.RevertToSnapshot#0: panic('can not to revert snap…",
-  "vm/neovm/executor.go:Executor.ExecuteOp#0: panic('unreachable')",
-  "vm/neovm/executor.go:Executor.ExecuteOp#1: panic('unreachable')",
-  "vm/neovm/executor.go:Executor.ExecuteOp#2: panic('unreachable')",
-  "vm/neovm/executor.go:Executor.ExecuteOp#3: panic('unreachable')",
-  "vm/neovm/executor.go:Executor.ExecuteOp#4: panic('unreachable')",
-  "vm/neovm/executor.go:Executor.ExecuteOp#5: panic('unreachable')",
-  "vm/neovm/executor.go:Executor.ExecuteOp#6: panic('unreachable')",
-  "vm/neovm/types/neovm_value.go:VmValue.AsBytes#0: panic('unreachable!')",
-  "vm/neovm/types/neovm_value.go:VmValue.buildParamToNative#0: panic('unreachable!')",
-  "vm/neovm/types/neovm_value.go:VmValue.Serialize#0: panic('unreachable!')",
-  "vm/neovm/types/neovm_value.go:VmValue.AsBigInt#0: panic('unreachable!')",
-  "vm/neovm/types/neovm_value.go:VmValue.AsIntValue#0: panic('unreachable!')",
-  "vm/neovm/types/neovm_value.go:VmValue.AsBool#0: panic('unreachable!')",
-  "vm/neovm/types/neovm_value.go:VmValue.Equals#0: panic('unreachable!')",
-  "vm/neovm/types/neovm_value.go:VmValue.stringify#0: panic('unreachable!')",
-  "vm/neovm/types/neovm_value.go:VmValue.dump#0: panic('unreachable!')"]
+`Gen/PanicSites.lean` (regenerated from the Go sources on every run) lists site KINDS as sets: package, operation with its operands
+named by role (`$c` a count decoded from the input, `$v` any other run-time value), whether a count-bounded loop reads and can leave,
+and the dominating guards of the operands — after inlining simply-defined locals and looking through same-package helpers in both
+directions. The theorems below state INCLUSION in the reviewed sets: extracting, inlining or deduplicating code removes or keeps kinds
+and proves as before; a new kind, a kind that lost a guard, a count-bounded loop that stopped reading is outside the reviewed set and
+breaks the build until it is triaged (disposition per kind in `props/C12.json`). -/
 
-/-- the reviewed list of count-sized loops / allocations -/
-def reviewedCountSites : List String := [
-  "core/states/bookkeeper.go:BookkeeperState.Deserialization#0: for i < int(n)",
-  "core/states/bookkeeper.go:BookkeeperState.Deserialization#1: for i < int(n)",
-  "core/states/vote_state.go:VoteState.Deserialization#0: for i < int(n)",
-  "smartcontract/service/native/auth/param.go:FuncsToRoleParam.Deserialization#0: for i < fnL…",
-  "smartcontract/service/native/auth/param.go:OntIDsToRoleParam.Deserialization#0: for i < pL…",
-  "smartcontract/service/native/auth/state.go:roleFuncs.Deserialization#0: for i < fnLen",
-  "smartcontract/service/native/auth/state.go:Status.Deserialization#0: for i < sLen",
-  "smartcontract/service/native/auth/state.go:roleTokens.Deserialization#0: for i < tLen",
-  "smartcontract/service/native/cross_chain/common/header.go:Header.Deserialization#0: for i …",
-  "smartcontract/service/native/cross_chain/common/header.go:Header.Deserialization#1: for i …",
-  "smartcontract/service/native/cross_chain/header_sync/param.go:SyncBlockHeaderParam.Deseria…",
-  "smartcontract/service/native/cross_chain/header_sync/states.go:KeyHeights.Deserialization#…",
-  "smartcontract/service/native/cross_chain/header_sync/states.go:ConsensusPeers.Deserializat…",
-  "smartcontract/service/native/global_params/global_params.go:AddressParam.Deserialization#0…",
-  "smartcontract/service/native/global_params/states.go:Params.Deserialization#0: for uint64(…",
-  "smartcontract/service/native/global_params/states.go:ParamNameList.Deserialization#0: for …",
-  "smartcontract/service/native/governance/param.go:BlackNodeParam.Deserialization#0: for uin…",
-  "smartcontract/service/native/governance/param.go:AuthorizeForPeerParam.Deserialization#0: …",
-  "smartcontract/service/native/governance/param.go:AuthorizeForPeerParam.Deserialization#1: …",
-  "smartcontract/service/native/governance/param.go:WithdrawParam.Deserialization#0: for uint…",
-  "smartcontract/service/native/governance/param.go:WithdrawParam.Deserialization#1: for uint…",
-  "smartcontract/service/native/governance/param.go:SplitCurve.Deserialization#0: for uint64(…",
-  "smartcontract/service/native/governance/states.go:PeerPoolMap.Deserialization#0: for uint3…",
-  "smartcontract/service/native/ont/ont.go:OntInit#0: for i < num",
-  "smartcontract/service/native/ont/states.go:TransferStates.Deserialization#0: for uint64(i)…",
-  "smartcontract/service/native/ont/states.go:TransferStatesV2.Deserialization#0: for uint64(…",
-  "smartcontract/service/native/ontfs/errors.go:Errors.FromString#0: for i < errorCount",
-  "smartcontract/service/native/ontfs/file_challenge.go:ChallengeList.Deserialization#0: for …",
-  "smartcontract/service/native/ontfs/file_del.go:FileDelList.Deserialization#0: for i < file…",
-  "smartcontract/service/native/ontfs/file_info.go:FileInfoList.Deserialization#0: for i < fi…",
-  "smartcontract/service/native/ontfs/file_info.go:FileHashList.Deserialization#0: for i < fi…",
-  "smartcontract/service/native/ontfs/file_info.go:FileHashList.Deserialization#1: make([]byt…",
-  "smartcontract/service/native/ontfs/file_pdp_record.go:PdpRecordList.Deserialization#0: for…",
-  "smartcontract/service/native/ontfs/file_read_pledge.go:ReadPledge.Deserialization#0: for i…",
-  "smartcontract/service/native/ontfs/file_renew.go:FileReNewList.Deserialization#0: for i < …",
-  "smartcontract/service/native/ontfs/file_transfer.go:FileTransferList.Deserialization#0: fo…",
-  "smartcontract/service/native/ontfs/node_info.go:FsNodeInfoList.Deserialization#0: for i < …",
-  "smartcontract/service/native/ontid/controller.go:addAttributesByController#0: for i < int(…",
-  "smartcontract/service/native/ontid/group.go:rDeserialize#0: for i < num",
-  "smartcontract/service/native/ontid/group.go:deserializeSigners#0: for i < num",
-  "smartcontract/service/native/ontid/method.go:regIdWithAttributes#0: for i < int(num)",
-  "smartcontract/service/native/ontid/method.go:addAttributes#0: for i < int(num)",
-  "smartcontract/service/native/ontid/method.go:addAttributesByIndex#0: for i < int(num)",
-  "smartcontract/service/native/ontid/param.go:Services.Deserialization#0: for uint64(i) < se…",
-  "smartcontract/service/native/ontid/param.go:Context.Deserialization#0: for uint64(i) < cNu…",
-  "smartcontract/service/native/ontid/param.go:Contexts.Deserialization#0: for uint64(i) < cN…",
-  "vm/neovm/types/neovm_value.go:VmValue.deserialize#0: for i < int(l)",
-  "vm/neovm/types/neovm_value.go:VmValue.deserialize#1: for i < int(l)",
-  "vm/neovm/types/neovm_value.go:VmValue.deserialize#2: for i < int(l)"]
+/-- the reviewed kinds of explicit `panic(` calls -/
+def reviewedPanicKinds : List String := [
+  "core/states: panic('toolargetokenbalance')",
+  "smartcontract/service/evm: panic(ErrGasUintOverflow)",
+  "smartcontract/service/native/cross_chain/common: panic(fmt.Errorf('invalidheader%dovermaxversion:%d',$v.Version,CURR_HEADER_VERSION)) if $v.Version>CURR_HEADER_VERSION",
+  "smartcontract/service/native/governance: panic('balancelessthansplitFeetowithdraw!')",
+  "smartcontract/service/native/governance: panic('incomelessthandappIncome!')",
+  "smartcontract/service/native/ontid: panic('groupmembertypeerror')",
+  "smartcontract/service/native/ontid: panic('invalidgroupmembertype')",
+  "smartcontract/service/native/ontid: panic('invalidmembertype')",
+  "smartcontract/service/native/testsuite: panic('unimplemented')",
+  "smartcontract/service/wasmvm: panic($v) if $v!=nil ; $v==nil",
+  "smartcontract/service/wasmvm: panic($v) if $v!=nil",
+  "smartcontract/service/wasmvm: panic(fmt.Errorf('[RaiseException]ContractRaiseException:%s/n',$v))",
+  "smartcontract/storage: panic('cannottorevertsnapshot')",
+  "smartcontract/storage: panic('todo')",
+  "smartcontract/storage: panic(fmt.Sprintf('Refundcounterbelowzero(gas:%d>refund:%d)',$v,$v.refund)) if $v>$v.refund",
+  "vm/neovm/types: panic('unreachable!')",
+  "vm/neovm: panic('unreachable')"]
 
-/-- **a new explicit `panic(` under smartcontract/, vm/neovm/, core/states/, tx_handler.go breaks the build until it is triaged** -/
-theorem C12_panic_sites_reviewed : OntVerif.Gen.PanicSites.panicSites = reviewedPanicSites := rfl
+/-- the reviewed kinds of loops / allocations / index operations whose bound, size or index derives from a decoded count -/
+def reviewedCountKinds : List String := [
+  "core/states: loop <int($c) $c=NextUint32 body:reads",
+  "smartcontract/service/native/auth: loop <$c $c=DecodeVarUint body:reads",
+  "smartcontract/service/native/auth: loop <$c $c=NextUint32 body:reads",
+  "smartcontract/service/native/cross_chain/common: loop <int($c) $c=NextVarUint body:reads",
+  "smartcontract/service/native/cross_chain/header_sync: loop <$c $c=DecodeVarUint body:reads",
+  "smartcontract/service/native/global_params: loop <$c $c=DecodeVarUint body:reads",
+  "smartcontract/service/native/governance: loop <$c $c=DecodeUint32 body:reads",
+  "smartcontract/service/native/governance: loop <$c $c=DecodeVarUint body:reads if $c<=1024",
+  "smartcontract/service/native/governance: loop <$c $c=DecodeVarUint body:reads",
+  "smartcontract/service/native/ont: loop <$c $c=DecodeVarUint body:reads",
+  "smartcontract/service/native/ontfs: loop <$c $c=DecodeVarUint body:reads if $c!=0",
+  "smartcontract/service/native/ontfs: loop <$c $c=DecodeVarUint body:reads",
+  "smartcontract/service/native/ontid: index [$c-1] $c=DecodeUint32 if $c<=uint32(len($v)) ; $c>=1",
+  "smartcontract/service/native/ontid: index [uint32($c)-1] $c=DecodeVarUint if !$v[uint32($c)-1].revoked ; uint32($c)!=0 ; uint32($c)<=uint32(len($v))",
+  "smartcontract/service/native/ontid: index [uint32($c)-1] $c=DecodeVarUint if !$v[uint32($c)-1].revoked ; uint32($c)<=uint32(len($v)) ; uint32($c)>=1",
+  "smartcontract/service/native/ontid: index [uint32($c)-1] $c=DecodeVarUint if uint32($c)!=0 ; uint32($c)<=uint32(len($v))",
+  "smartcontract/service/native/ontid: index [uint32($c)-1] $c=DecodeVarUint if uint32($c)<=uint32(len($v)) ; uint32($c)>=1",
+  "smartcontract/service/native/ontid: loop <$c $c=DecodeVarUint body:reads",
+  "smartcontract/service/native/ontid: loop <int($c) $c=DecodeVarUint body:reads",
+  "vm/neovm/types: loop <int($c) $c=NextVarUint body:reads",
+  "vm/neovm/utils: make([]byte,int($c)) $c=ReadVarInt if int($c)<=$v"]
 
-/-- **a new loop or `make` sized by a decoded count breaks the build until it is triaged** -/
-theorem C12_count_sites_reviewed : OntVerif.Gen.PanicSites.countSites = reviewedCountSites := rfl
+set_option maxRecDepth 20000 in
+/-- **a new kind of explicit `panic(` under smartcontract/, vm/neovm/, core/states/, tx_handler.go — another package, another argument,
+a weaker guard — breaks the build until it is triaged**; fewer kinds, or more copies of a reviewed kind, do not -/
+theorem C12_panic_sites_reviewed : ∀ k ∈ OntVerif.Gen.PanicSites.panicKinds, k ∈ reviewedPanicKinds := by decide
+
+set_option maxRecDepth 20000 in
+/-- **a new kind of loop, `make`, index, slice or division driven by a decoded count — or a reviewed one that lost a guard or no longer
+reads in its body — breaks the build until it is triaged** -/
+theorem C12_count_sites_reviewed : ∀ k ∈ OntVerif.Gen.PanicSites.countKinds, k ∈ reviewedCountKinds := by decide
 
 /-! ## the property at model level -/
 
